@@ -114,10 +114,16 @@ class PassHarness:
         self.pass_name = pass_name
         self.node = h.mod.func_node(pass_name)
         self.func = h.env.vars[pass_name]
-        self.pre, self.loop, self.post, self.pos_var, self.out_var = loop_parts(self.node)
         self.params = [a.arg for a in self.node.args.args]
+        # whether the pass keeps a byte position is discovered when the item loop is reached (run_body)
+        self.pos_var = True
         self.names = class_names(h)
         ctx.dropped.add('log_conversion / log_constant / log.info calls (A-LOG: logging has no effect on results)')
+        ctx.trust('modular callee contracts used inside pass bodies (each body is verified separately where it has one): lookup_register '
+                  '(contracts/encoders.py), Arithmetic.eval (deterministic int-or-AssemblerError; integer literals and str(int) evaluate to '
+                  'their value: A-EVAL), parse_immediate for unknown tokens (some expression object), SymExpr.eval for parser-produced '
+                  'expressions (deterministic function of expression, position and table state, or AssemblerError with the given line)')
+        ctx.trust('struct.calcsize(fmt) >= 0 for an accepted format, struct.error otherwise (A-STRUCT)')
 
     # -- contracts used modularly inside the bodies ----------------------
     def contracts(self, builder):
@@ -260,6 +266,9 @@ class PassHarness:
 
     # -- one execution of the body ---------------------------------------
     def run_body(self, run, cls, name, variant=None):
+        """Call the real pass function on a symbolic item list.  The FIRST `for` loop that iterates over that list -
+        in the pass itself or in a helper it calls - is the item loop: the Hoare step is taken there (state at the
+        loop head made arbitrary, one arbitrary item, body once) and the call is abandoned afterwards."""
         h = self.h
         dom = run.dom
         builder = Builder2(run, None, h.env)
@@ -267,44 +276,90 @@ class PassHarness:
         it = I.Interp(run, h.base_it.mods, contracts=self.contracts(builder), hooks=hooks)
         W.install_symexpr_dispatch(it, builder)
         builder.it = it
-        fenv = I.Env(self.func.env)
         labels = W.SymLabels(run)
         consts = W.SymConsts(run)
-        items_in = I.Opaque('items')
-        for p in self.params:
-            fenv.vars[p] = {'items': items_in, 'labels': labels, 'constants': consts}.get(p, I.Opaque(p))
-        it.exec_block(self.pre, fenv)
+        items_in = ItemsToken()
         st = Step()
-        st.init_pos = fenv.vars.get(self.pos_var) if self.pos_var else None
-        st.init_out = fenv.vars.get(self.out_var)
-        P = dom.var('P')
-        run.assume(P.t >= 0)
-        if self.pos_var:
-            fenv.vars[self.pos_var] = P
-        out = []
-        fenv.vars[self.out_var] = out
-        item, info = self.mk_item(run, it, builder, cls, name, variant)
-        fenv.vars[self.loop.target.id] = item
-        st.item, st.info, st.P, st.labels, st.consts, st.builder = item, info, P, labels, consts, builder
-        run.notes['step'] = st
-        st.old_size = it.call(it.getattr(item, 'size'), [], {})
+        st.labels, st.consts, st.builder, st.it = labels, consts, builder, it
         st.mutations = []
-        hooks['mutation'] = lambda it_, obj, how: st.mutations.append((obj, how))
+        run.notes['step'] = st
+        harness = self
+
+        def for_hook(itp, s, env, itv):
+            if itv is not items_in:
+                return None
+            if not isinstance(s.target, ast.Name):
+                raise I.Unsupported('%s: item loop target' % harness.pass_name)
+            # the byte-position counter and the output list of this loop, from how the body uses them
+            augs = {n.target.id for n in ast.walk(s) if isinstance(n, ast.AugAssign) and isinstance(n.target, ast.Name)
+                    and isinstance(n.op, ast.Add)}
+            appended_to = {n.func.value.id for n in ast.walk(s) if isinstance(n, ast.Call) and isinstance(n.func, ast.Attribute)
+                           and n.func.attr in ('append', 'extend') and isinstance(n.func.value, ast.Name)}
+            pos_names = [n for n in sorted(augs) if isinstance(I.env_lookup_default(env, n), int) and not isinstance(I.env_lookup_default(env, n), bool)]
+            out_names = [n for n in sorted(appended_to) if isinstance(I.env_lookup_default(env, n), list)]
+            if len(out_names) != 1 or len(pos_names) > 1:
+                raise I.Unsupported('%s: cannot identify the output list / position counter of the item loop (%r, %r)' % (
+                    harness.pass_name, out_names, pos_names))
+            st.pos_name = pos_names[0] if pos_names else None
+            st.out_name = out_names[0]
+            st.init_pos = env.lookup(st.pos_name) if st.pos_name else None
+            st.init_out = list(env.lookup(st.out_name))
+            P = dom.var('P')
+            run.assume(P.t >= 0)
+            st.P = P
+            if st.pos_name:
+                _set(env, st.pos_name, P)
+            out = []
+            _set(env, st.out_name, out)
+            item, info = harness.mk_item(run, itp, builder, cls, name, variant)
+            st.item, st.info = item, info
+            st.old_size = itp.call(itp.getattr(item, 'size'), [], {})
+            hooks['mutation'] = lambda it_, obj, how: st.mutations.append((obj, how))
+            itp.assign(s.target, item, env)
+            try:
+                itp.exec_block(s.body, env)
+            except I._Continue:
+                pass
+            except I._Break:
+                raise I.Unsupported('break out of the item loop')
+            hooks['mutation'] = None
+            st.pos_after = env.lookup(st.pos_name) if st.pos_name else None
+            st.out_obj = env.lookup(st.out_name)
+            st.appended = list(out)
+            st.out_same = st.out_obj is out
+            st.new_sizes = [itp.call(itp.getattr(o, 'size'), [], {}) for o in st.appended]
+            st.fenv = env
+            raise _StepDone()
+        hooks['for'] = for_hook
+        args = []
+        kwargs = {}
+        for p in self.params:
+            args.append({'items': items_in, 'labels': labels, 'constants': consts}.get(p, I.Opaque(p)))
         try:
-            it.exec_block(self.loop.body, fenv)
-        except I._Continue:
-            pass
-        except I._Break:
-            raise I.Unsupported('break out of the item loop')
-        hooks['mutation'] = None
-        st.pos_after = fenv.vars.get(self.pos_var) if self.pos_var else None
-        st.appended = list(out)
-        st.out_obj = fenv.vars.get(self.out_var)
-        st.out_same = st.out_obj is out
-        st.new_sizes = [it.call(it.getattr(o, 'size'), [], {}) for o in st.appended]
-        st.fenv = fenv
-        st.it = it
-        return st
+            it.call(self.func, args, kwargs)
+        except _StepDone:
+            return st
+        raise I.Unsupported('%s: no for-loop over the item list was reached' % self.pass_name)
+
+
+class ItemsToken(I.Opaque):
+    def __init__(self):
+        super().__init__('items')
+
+
+class _StepDone(Exception):
+    pass
+
+
+def _set(env, name, value):
+    """rebind `name` in the scope that holds it"""
+    e = env
+    while e is not None:
+        if name in e.vars:
+            e.vars[name] = value
+            return
+        e = e.parent
+    env.vars[name] = value
 
 
 class StrOfInt(I.Opaque):
@@ -555,13 +610,13 @@ def layout_obligations(ctx, ph, cls, name, paths, tag, replay):
         pc = list(p.pc)
         P = st.P.t
         # init establishes the invariant (checked once per pass, cheap to repeat)
-        init_ok = (st.init_pos == 0 if ph.pos_var else True) and st.init_out == []
+        init_ok = (st.init_pos == 0 if st.pos_name else True) and st.init_out == []
         old = _t(None, st.old_size)
         new_total = z3.IntVal(0)
         for s in st.new_sizes:
             new_total = new_total + _t(None, s)
         goals = {}
-        if ph.pos_var:
+        if st.pos_name:
             goals['pos'] = _t(None, st.pos_after) - P == new_total
         goals['shrink'] = z3.And(new_total >= 0, new_total <= old)
         # LabelsExact step on an arbitrary label value v
@@ -598,7 +653,7 @@ def layout_obligations(ctx, ph, cls, name, paths, tag, replay):
             goals.update(immediate_goals(ph, st, P))
         for gname, g in goals.items():
             ctx.add(Obligation('%s/%s/%s#%d' % (fn, tag, gname, i), pc, g, 'INT', func=fn,
-                               kind='invariant', cover=(gname == 'pos' or (gname == 'shrink' and not ph.pos_var)),
+                               kind='invariant', cover=(gname == 'pos' or (gname == 'shrink' and not st.pos_name)),
                                meta={'replay': replay, 'what': '%s on %s: step obligation %s fails' % (ph.pass_name, tag, gname),
                                      'key': '%s:%s:%s' % (ph.pass_name, tag, gname)}))
     return n_ok
